@@ -607,6 +607,9 @@ func c14Conversion(p *Prog, r *Report) {
 		})
 		r.Check(okURL, "D4-conversion", key+":url-string", p.Pos(tp.Pos()), cv.dstStruct+"."+cv.urlField+" = ToPURL(pkg).String()", cv.fn+" does not write ToPURL(pkg).String() as the record's package URL")
 		if cv.fn == "ToCDX" {
+			// the URL is left out of a component only when the package has none
+			frozenSkips(p, r, "D4-conversion", key+":url-always-written", fn, storesField("Component", "PackageURL"), c14CDXURLSkips, "CDXURL",
+				"a component can be written without its package URL although the package has one (e.g. when the URL's version is empty): the SBOM record does not preserve the package URL")
 			for _, f := range []string{"Name", "Version"} {
 				okF := false
 				forEachInstr(fn, func(_ *ssa.BasicBlock, _ int, in ssa.Instruction) {
@@ -641,6 +644,14 @@ func c14Conversion(p *Prog, r *Report) {
 			r.Check(okL, "D4-conversion", key+":Locations", p.Pos(fn.Pos()), "an occurrence per location", "ToCDX does not record every location of the package")
 		}
 	}
+}
+
+// c14CDXURLSkips: the decisions after which ToCDX writes a component without PackageURL.
+var c14CDXURLSkips = []string{
+	// the package's extractor yields no package URL
+	"extractor.Extractor.ToPURL(param0.Inventory.Packages[ι].Extractor,param0.Inventory.Packages[ι]) == nil:*github.com/google/osv-scalibr/purl.PackageURL",
+	// end of the inventory
+	"range-end: param0.Inventory.Packages",
 }
 
 // compositeNameAt renders the source text of the Name element of the &extractor.Package{...}
